@@ -110,9 +110,44 @@ def _escapes(idx, cls, attr):
                 (isinstance(par, ast.Call) and call_name(par) in ("len", "sorted", "list", "tuple", "set", "dict", "enumerate", "any", "all", "sum", "max", "min", "join", "frozenset") and n in par.args) or
                 (isinstance(par, ast.Starred)) or (isinstance(par, ast.BinOp)) or (isinstance(par, ast.FormattedValue))
             )
+            if not harmless and isinstance(par, ast.Call) and n in par.args and isinstance(par.func, ast.Attribute) and isinstance(par.func.value, ast.Name) \
+                    and par.func.value.id in ("self", "cls", cls) and par.func.attr.startswith("_") and fi.cls and idx.has_method(fi.cls, par.func.attr):
+                # handed to a private method of the same class: harmless when that method only reads its parameter
+                harmless = _param_read_only(idx.method(fi.cls, par.func.attr), par.args.index(n))
             if not harmless:
                 sites.append((fi, n))
     return sites
+
+
+def _param_read_only(m, pos):
+    """does method m use its pos-th positional parameter (after self) only through subscripts, .get()/keys()/…, membership tests and iteration"""
+    params = [a.arg for a in m.node.args.posonlyargs + m.node.args.args]
+    if params and params[0] in ("self", "cls"):
+        params = params[1:]
+    if pos >= len(params):
+        return False
+    name = params[pos]
+    parents = {}
+    for p_ in ast.walk(m.node):
+        for ch in ast.iter_child_nodes(p_):
+            parents[id(ch)] = p_
+    for n in ast.walk(m.node):
+        if not (isinstance(n, ast.Name) and n.id == name):
+            continue
+        if not isinstance(n.ctx, ast.Load):
+            return False
+        par = parents.get(id(n))
+        gpar = parents.get(id(par)) if par is not None else None
+        ok = (
+            (isinstance(par, ast.Subscript) and par.value is n and isinstance(par.ctx, ast.Load)) or
+            (isinstance(par, ast.Attribute) and par.value is n and par.attr in ("get", "keys", "values", "items", "index", "count") and isinstance(gpar, ast.Call) and gpar.func is par) or
+            isinstance(par, ast.Compare) or
+            (isinstance(par, (ast.For, ast.comprehension)) and par.iter is n) or
+            (isinstance(par, ast.Call) and call_name(par) in ("len", "sorted", "list", "tuple", "set", "dict", "enumerate", "any", "all", "frozenset") and n in par.args)
+        )
+        if not ok:
+            return False
+    return True
 
 
 def _module_table_sites(idx, rel, name):
